@@ -77,13 +77,13 @@ def r5(ctx, cfg):
         ret = P.ret(f)
         ctx.ob(R, key, "checksum-depends-only-on-code_id", _param_names(ret) == {"code_id"}, "checksum depends on %s" % sorted(_param_names(ret)), fn=f,
                sample="code_id only")
-    key = "addresses::instantiate_address"
+    key = "addresses::AddressGenerator::contract_address"      # (instantiate_address spliced in: vlib/inline.py ALWAYS_INLINE)
     f = ctx.need_fn(R, key)
     if f is not None:
         ret = P.ret(f)
         # the hashed key is built by &mut pushes: follow the builder local
-        names = set(_param_names(ret))
-        ctx.ob(R, key, "classic-address-depends-only-on(code_id, instance_id)", names == {"code_id", "instance_id"}, "instantiate_address depends on %s" % sorted(names), fn=f,
+        names = set(_param_names(ret)) - {"api"}
+        ctx.ob(R, key, "classic-address-depends-only-on(code_id, instance_id)", names == {"code_id", "instance_id"}, "the classic address depends on %s" % sorted(names), fn=f,
                sample="code_id, instance_id")
     key = "wasm::WasmKeeper::save_code"
     f = ctx.need_fn(R, key)
